@@ -120,6 +120,9 @@ func (g *Gen) lemma(ct *Contract) {
 	for _, r := range ct.Requires {
 		g.assume(env.trBool(r.Expr))
 	}
+	for _, ap := range ct.Applies {
+		g.applyLemma(ct, ap, env)
+	}
 	for _, e := range ct.Ensures {
 		t := env.trBool(e.Expr)
 		o := g.oblige("lemma", e.Label, clauseProps(ct, e), nil, "true", t, e.Src, token.NoPos)
@@ -516,4 +519,51 @@ func (g *Gen) outsideKnown(o *Obligation, env *Env, fn *ssa.Function) {
 		n := g.oblige(o.Kind, o.Label+"!outside_known", o.Props, fn, o.Guard, or(cls, o.Goal), "outside the known-finding class: "+k.Class+" || "+o.GoalSrc, token.NoPos)
 		n.Name = o.Name + "!outside_known"
 	}
+}
+
+// applyLemma assumes an instance of another lemma of the same package:
+// "name with x = expr, y = expr". The instantiated premises imply the
+// instantiated conclusions; the lemma itself is discharged as its own
+// obligations for all values of its variables.
+func (g *Gen) applyLemma(ct *Contract, spec string, env *Env) {
+	parts := strings.SplitN(spec, " with ", 2)
+	name := strings.TrimSpace(parts[0])
+	other := g.w.contracts[ct.PkgPath+"::"+name]
+	if other == nil || !other.IsLemma {
+		g.fail("apply: no lemma %q in this package", name)
+	}
+	for _, u := range other.Uses {
+		g.useTheory(u)
+	}
+	inst := g.newEnv(env.cur, env.old)
+	if len(parts) == 2 {
+		for _, b := range splitTopLevel(parts[1], ',') {
+			kv := strings.SplitN(b, "=", 2)
+			if len(kv) != 2 {
+				g.fail("apply %s: bad binding %q", name, b)
+			}
+			ex, err := parseSpecExpr(kv[1])
+			if err != nil {
+				g.fail("%v", err)
+			}
+			inst.vars[strings.TrimSpace(kv[0])] = env.tr(ex)
+		}
+	}
+	for _, v := range other.Vars {
+		if _, ok := inst.vars[v.Name]; !ok {
+			g.fail("apply %s: variable %s is not bound", name, v.Name)
+		}
+	}
+	for _, l := range other.Lets {
+		inst.lets[l.Name] = l.Expr
+	}
+	var pre, post []string
+	for _, r := range other.Requires {
+		pre = append(pre, inst.trBool(r.Expr))
+	}
+	for _, e := range other.Ensures {
+		post = append(post, inst.trBool(e.Expr))
+	}
+	g.assume(implies(and(pre...), and(post...)))
+	g.assumes["lemma instance used: "+name+" (discharged as its own obligations)"] = true
 }
